@@ -1,19 +1,19 @@
-\* generated by lib/brokerlib.py mc_configs (kept here so that the model can be run by hand: tlc -config MC_core.cfg Broker.tla)
+\* generated by lib/brokerlib.py mc_configs (kept here so that the model can be run by hand: tlc -config MC_match2.cfg Broker.tla)
 CONSTANTS
   Proxies = {"p1", "p2"}
   Clients = {"c1", "c2"}
-  Answers = {"a1", "a2"}
+  Answers = {}
   PT = 2
   CT = 2
   Loads = {0, 8}
-  NoTies = TRUE
+  NoTies = FALSE
   StrictTimers = FALSE
   D1Fixed = TRUE
   D2Fixed = TRUE
-  PNatSet = {"unrestricted"}
-  CNatSet = {"restricted"}
-  FpSet = {"default", "b2"}
-  UnknownTargets = TRUE
+  PNatSet = {"unrestricted", "restricted", "unknown"}
+  CNatSet = {"unrestricted", "restricted", "unknown", "absent"}
+  FpSet = {"default"}
+  UnknownTargets = FALSE
   Bridges = {"default", "b2"}
   DupSids = FALSE
   Rejects = FALSE
